@@ -67,13 +67,13 @@ type c19run struct {
 }
 
 type c19scn struct {
-	subnet   string
-	exclude  string
-	interval time.Duration
-	slow     time.Duration // consumer pause per request
-	failOn   int           // 0 = never
-	stopAfter int          // the consumer cancels after this many requests (the scan's own end), 0 = only the event cancels
-	bound    int
+	subnet    string
+	exclude   string
+	interval  time.Duration
+	slow      time.Duration // consumer pause per request
+	failOn    int           // 0 = never
+	stopAfter int           // the consumer cancels after this many requests (the scan's own end), 0 = only the event cancels
+	bound     int
 }
 
 func (s c19scn) String() string {
